@@ -2,6 +2,7 @@ import FluteModel.Recv
 import FluteModel.Lemmas.RecvRun
 import FluteModel.Lemmas.RecvSkewState
 import FluteModel.Lemmas.RecvStrip
+import FluteModel.Lemmas.RecvKey
 import FluteModel.Lemmas.RecvToy
 import FluteModel.RecvMini
 import FluteModel.Lemmas.RecvMiniLaw
@@ -157,6 +158,58 @@ theorem no_sct_uses_own_clock (I : ObjIface σ) (cfg : Config) (ops : List Op)
   refine ⟨fun f hf => ⟨(this e he).1 f hf, fun now => (no_sct_server_time f now ((this e he).1 f hf)).1⟩,
     (this e he).2⟩
 
+
+/-- **no_sct_uses_own_clock, per instance.**  Whatever the other instances of the session carry: if
+    no packet of FDT instance id `i` (TOI 0, EXT_FDT id `i`) carries a sender-current-time, then in
+    every reachable state every instance receiver with id `i` - in `fdt_receivers` or `fdt_current` -
+    holds no clock offset, so each of its expiry decisions is taken on the receiver's own clock. -/
+theorem no_sct_uses_own_clock_per_instance (I : ObjIface σ) (cfg : Config) (ops : List Op) (i : Nat)
+    (tr : List (Op × State σ × Res × List Ev)) (hrun : runT I (State.init cfg) ops = some tr)
+    (hno : ∀ op ∈ ops, ∀ p now ans, op = Op.data (.pkt p) now ans → p.toi = 0 → p.fdtId = some i →
+      p.sct = none) :
+    ∀ e ∈ tr, (∀ f ∈ e.2.1.fdtCurrent, f.fdtId = i → f.offset = none ∧ ∀ now, f.serverTime now = .ok now) ∧
+              (∀ kf ∈ e.2.1.fdtReceivers, kf.2.fdtId = i → kf.2.offset = none) := by
+  have := runT_inv I (fun s => AllFdt (fun f => f.fdtId = i → f.offset = none) s ∧ KeyInv s)
+    (fun op => ∀ p now ans, op = Op.data (.pkt p) now ans → p.toi = 0 → p.fdtId = some i → p.sct = none)
+    (fun s op s' r evs hinv hG h => by
+      have := step_allK I (fun f => f.fdtId = i → f.offset = none) s s' op r evs
+        (fun p now ans id _ _ _ => by simp [FdtRecv.new])
+        (fun p now ans hop htoi id hid f hfid hf hpi => by
+          have hp := push_fields I f p now ans
+          rw [hp.2.2.2.1] at hpi
+          have hidi : id = i := by rw [← hfid, hpi]
+          subst hidi
+          rw [hp.1, hG p now ans hop htoi hid]
+          simpa [FdtRecv.observeSct] using hf hpi)
+        (fun f f' hf hu hfi => by
+          have hfl := updateExpired_fields hu
+          rw [hfl.2.2.2.2.1]; exact hf (by rw [← hfl.1]; exact hfi))
+        h hinv.1 hinv.2
+      exact ⟨this.1.1, this.2⟩)
+    ops (State.init cfg) tr
+    ⟨by constructor <;> (intro f hf; simp [State.init] at hf), by intro kf hkf; simp [State.init] at hkf⟩
+    hno hrun
+  intro e he
+  refine ⟨fun f hf hfi => ⟨(this e he).1.1 f hf hfi, fun now => (no_sct_server_time f now ((this e he).1.1 f hf hfi)).1⟩,
+    fun kf hkf hfi => (this e he).1.2 kf hkf hfi⟩
+
+/-- **writer_call_needs_attach** (what the driver prints vs the ghost event).  The driver prints the
+    writer calls (`new`, `open`, `write`, `complete`, `error`, `interrupted`); the ghost `attach`
+    events are shown through the probe (instance id of every live object) and through the
+    `ExpiresAtHint` of `new`.  For an object implementation satisfying `ObjIface.Law`: in a history
+    (hence in every prefix of a history) without an attach event for `toi` no writer call for `toi`
+    is ever made - every printed writer call of a TOI is preceded by an `attach` of that TOI, to
+    which `delivery_only_if_unexpired` applies. -/
+theorem writer_call_needs_attach (I : ObjIface σ) (L : I.Law) (cfg : Config) (ops : List Op)
+    (tr : List (Op × State σ × Res × List Ev)) (hrun : runT I (State.init cfg) ops = some tr)
+    (toi : Nat) (hna : ∀ e ∈ tr, ∀ id, Ev.attach toi id ∉ e.2.2.2) :
+    ∀ e ∈ tr, ∀ w, Ev.w toi w ∉ e.2.2.2 := by
+  have := runT_ind I (fun s => InvT L toi s.objects)
+    (fun _ _ _ evs => ∀ i, Ev.attach toi i ∉ evs)
+    (fun _ _ _ evs => Silent toi evs)
+    (fun s op s' r evs hinv h hx => step_silent L toi s s' op r evs h hinv hx)
+    ops (State.init cfg) tr (by intro k o hm; simp [State.init] at hm) hrun hna
+  exact this
 
 /-- **skew cancels** (instance level, both the "late" and the "early" branch of
     `FdtReceiver::push`): after an EXT_TIME `sct` was observed at receiver time `now₀ + δ`, the
